@@ -1,0 +1,25 @@
+// SPDX-FileCopyrightText: 2026 The Pion community <https://pion.ly>
+// SPDX-License-Identifier: MIT
+
+//go:build verif
+
+package oggwriter
+
+import (
+	"io"
+	"os"
+)
+
+// VerifNewSingle builds the single-track writer exactly as New (fd != nil) / NewWith (fd == nil) do,
+// but with a caller-chosen bitstream serial number instead of a random one, so that the written bytes
+// are reproducible.
+func VerifNewSingle(out io.Writer, fd *os.File, sampleRate uint32, channelCount uint16, serial uint32) (*OggWriter, error) {
+	config, err := newTrackConfig(sampleRate, channelCount)
+	if err != nil {
+		return nil, err
+	}
+	config.serial = serial
+	config.serialSet = true
+
+	return newWith(out, fd, config)
+}
